@@ -20,6 +20,9 @@ Stop(rounds, H, i)  == Start(rounds, H, i) + BlockLen(rounds[i], H) - 1         
 CalStart(rounds, H) == Sum(Lens(rounds, H), Len(rounds))
 CalStop(rounds, H)  == CalStart(rounds, H) + CalLen(H) - 1
 Cycle(rounds, H)    == CalStart(rounds, H) + CalLen(H)
+\* calibration points off (K = 0): no calibration kernel, the cycle is the blocks only, no calibration index exists
+CalLenK(H, K)         == K * CalLen(H)
+CycleK(rounds, H, K)  == CalStart(rounds, H) + CalLenK(H, K)
 
 \* index categories of block i (sequences, ascending); `anc` = the qubit is an ancilla
 Heralded(rounds, H, i) == IF H = 1 THEN <<Start(rounds, H, i)>> ELSE <<>>
@@ -31,11 +34,16 @@ Final(rounds, H, i, anc) ==
 CalHeralded(rounds, H, s) == IF H = 1 THEN <<CalStart(rounds, H) + s * (H + 1)>> ELSE <<>>     \* s = 0, 1, 2
 CalProjected(rounds, H, s) == <<CalStart(rounds, H) + s * (H + 1) + H>>
 
+CalHeraldedK(rounds, H, K, s)  == IF K = 1 THEN CalHeralded(rounds, H, s) ELSE <<>>
+CalProjectedK(rounds, H, K, s) == IF K = 1 THEN CalProjected(rounds, H, s) ELSE <<>>
+
 SeqSet(s) == {s[j] : j \in 1..Len(s)}
 Shift(s, d) == [j \in 1..Len(s) |-> s[j] + d]
 \* repetition i (0-based) of a single-cycle index list
 Sliced(s, rounds, H, reps) == [i \in 1..reps |-> Shift(s, (i - 1) * Cycle(rounds, H))]
 Estimate(rounds, H, size)  == size \div Cycle(rounds, H)
+SlicedK(s, rounds, H, K, reps) == [i \in 1..reps |-> Shift(s, (i - 1) * CycleK(rounds, H, K))]
+EstimateK(rounds, H, K, size)  == size \div CycleK(rounds, H, K)
 
 -----------------------------------------------------------------------------
 (* Design-level invariants of one experiment description.                    *)
@@ -62,4 +70,14 @@ TranslateOK(rounds, H, reps) ==
      LET sl == Sliced(Final(rounds, H, i, FALSE), rounds, H, reps) IN
      \A k \in 1..reps : sl[k] = Shift(sl[1], (k - 1) * Cycle(rounds, H))
 EstimateOK(rounds, H, reps) == Estimate(rounds, H, reps * Cycle(rounds, H)) = reps
+\* the same with the calibration flag: every category of every repetition lies inside the dataset 0..reps*cycle-1, distinct
+\* repetitions never share an index, the estimate inverts
+DatasetOK(rounds, H, K, reps) ==
+  LET C == CycleK(rounds, H, K)
+      one == UNION {SeqSet(Heralded(rounds, H, i)) \cup SeqSet(Stab(rounds, H, i, TRUE)) \cup SeqSet(Final(rounds, H, i, FALSE)) : i \in 1..Len(rounds)}
+             \cup UNION {SeqSet(CalHeraldedK(rounds, H, K, s)) \cup SeqSet(CalProjectedK(rounds, H, K, s)) : s \in 0..2} IN
+  /\ one = 0..(C - 1)                                                    \* one cycle is covered exactly
+  /\ \A a, b \in 1..reps : a # b => {x + (a - 1) * C : x \in one} \cap {x + (b - 1) * C : x \in one} = {}
+  /\ UNION {{x + (a - 1) * C : x \in one} : a \in 1..reps} = 0..(reps * C - 1)
+  /\ C > 0 => EstimateK(rounds, H, K, reps * C) = reps
 =============================================================================
